@@ -43,7 +43,7 @@ func (s *sys) snapshot() snap {
 	ctx := context.Background()
 	if s.eng != nil {
 		// The engine exposes no view API: the views are what its gossip strategy was last handed.
-		sn.ok = s.eng.e != nil
+		sn.ok = s.eng.up()
 		sn.voting = s.eng.lastVoting.Clone()
 		sn.committing = s.eng.lastCommitting.Clone()
 	} else if s.m != nil {
